@@ -148,7 +148,7 @@ func init() {
 
 	// ---------------------------------------------------------------- C11 isolation
 	c11cfg := func(r *rng.R, local int) kv.Config {
-		return kv.Config{Disk: local%2 == 1, Buckets: 2, Handles: 1, Colls: 3, FeedsPer: 1, Marker: true}
+		return kv.Config{Disk: local%2 == 1, Buckets: 2, Handles: 1, Colls: 4, FeedsPer: 1, Marker: true}
 	}
 	c11 := kvOpts{
 		Sim:       kv.SimOptions{JudgeEvents: true, IsoEachStep: true},
@@ -164,7 +164,7 @@ func init() {
 	c11r.Keys = []string{"k0", "k1", "k2"}
 	sup.Register(&sup.Check{
 		Prop: "C11", Level: "exploration",
-		Rule:        "engine A on 2 buckets x 3 collections that all hold the same key names: after every step the same key is re-read in every other collection and bucket and must be byte-identical to its last read-back (isolation frame), every other collection's feed must stay silent and events must carry the addressed collection's id; periodic full sweeps; PurgeTombstones, DropDataStore + re-create, Touch in the op mix; (non-interference) two buckets get the same history on c0, one of them also gets writes, WithMeta writes, deletions and drops on c1/c2: non-stale views (5 parameter shapes x 4 views) and 3 SQL statements over c0 must return identical results in both; (stale DataStore) handle A drops a collection and creates another (or the same name again), handle B then issues 14 kinds of writes through the DataStore it still holds for the dropped collection: every key of every other collection must keep its read-back and their feeds stay silent; cell = (op variant, pre-state class, outcome, bucket type)",
+		Rule:        "engine A on 2 buckets x 4 collections (the default one, the same collection name in two scopes, two collections in one scope) that all hold the same key names: after every step the same key is re-read in every other collection and bucket and must be byte-identical to its last read-back (isolation frame), every other collection's feed must stay silent and events must carry the addressed collection's id; periodic full sweeps; PurgeTombstones, DropDataStore + re-create, Touch in the op mix; (non-interference) two buckets get the same history on c0, one of them also gets writes, WithMeta writes, deletions and drops on c1/c2: non-stale views (5 parameter shapes x 4 views) and 3 SQL statements over c0 must return identical results in both; (stale DataStore) handle A drops a collection and creates another (or the same name again), handle B then issues 14 kinds of writes through the DataStore it still holds for the dropped collection: every key of every other collection must keep its read-back and their feeds stay silent; cell = (op variant, pre-state class, outcome, bucket type)",
 		Assumptions: append([]string{"inside engine A DropDataStore is exercised through the only open handle of the bucket (a sibling handle keeps a stale Collection object by design of the API); what that stale object may do to OTHER collections is judged by the stale-handle part, what it returns itself is not"}, kvAssume...),
 		Parts: []sup.Part{
 			exhaustivePart("exhaustive-sibling-has-key", c11),
